@@ -210,7 +210,7 @@ fn mutants(v: &JV, named: &[String], rng: &mut Rng, out: &mut Vec<JV>) {
 
 /// the contrapositive, directed: instances the Lean validator S5 refuses must not be producible — fed
 /// byte by byte, the engine must refuse a byte or end in a non-accepting state
-fn directed_negatives(ctx: &Ctx, schema: &Value, g: &Gram, named: &[String], rng: &mut Rng, rep: &mut Report, tag: usize, budget: usize) {
+fn directed_negatives(ctx: &Ctx, schema: &Value, g: &Gram, named: &[String], rng: &mut Rng, rep: &mut Report, tag: usize, budget: usize, mb: &mut ModelBatch) {
     let sb = vocab::single_byte_words();
     let eos = sb.len() as u32 - 1;
     let Ok(w1) = World::new(sb, eos, false, None) else { return; };
@@ -229,6 +229,14 @@ fn directed_negatives(ctx: &Ctx, schema: &Value, g: &Gram, named: &[String], rng
     for c in &cands { reqs.push(format!("json v {tag} {}", js::to_sexp(c))); }
     let Ok(resp) = ModelBatch::run_raw(&ctx.model_exe, &reqs) else { rep.fail("model", "c06:model-driver", "model driver failed".into(), json!({"schema": schema})); return; };
     if resp[0] != "ok" { return; }
+    // the IR the code builds for this document must mean what S5 says, on every candidate (valid or not)
+    if let Ok((da, _, _)) = llguidance::verif::verif_intersect(schema, &json!(true)) {
+        if !da.contains("(object)") && !da.contains("(ref)") && !da.contains("(atom ") {
+            for (c, r) in cands.iter().zip(resp.iter().skip(1)) {
+                if r == "0" || r == "1" { mb.push(format!("sch sat (pair {da} {})", js::to_sexp(c)), r.clone(), tag); rep.count("ir-meaning.pairs"); }
+            }
+        }
+    }
     for (c, r) in cands.iter().zip(resp.iter().skip(1)) {
         if r.as_str() != "0" { rep.count("directed.valid-or-undecided"); continue; }
         rep.count("directed.invalid-candidates");
@@ -279,7 +287,7 @@ pub fn run_case(ctx: &Ctx, case: &Value, tag: usize, rep: &mut Report, mb: &mut 
         }
         if m.is_accepting().unwrap_or(false) && !outputs.contains(&bytes) { outputs.push(bytes.clone()); }
     }
-    directed_negatives(ctx, schema, &g, &named, &mut rng, rep, tag, if case["walks"].as_u64().unwrap_or(10) > 10 { 160 } else { 60 });
+    directed_negatives(ctx, schema, &g, &named, &mut rng, rep, tag, if case["walks"].as_u64().unwrap_or(10) > 10 { 160 } else { 60 }, mb);
     rep.count_n("outputs.sampled", outputs.len() as u64);
     if outputs.is_empty() { rep.skip("no-complete-output-sampled"); return; }
     rep.nontrivial(schema.to_string());
